@@ -1,7 +1,7 @@
 (* Extraction of the C01 mutex model (fine-grained steps + the cooperative E2 tie):
    ExtrOcamlBasic only; Z, positive, nat stay Coq's datatypes. *)
 From Coq Require Import ZArith List.
-From PV Require Import Base.U64 C01.C01_Model C01.C01_Coop.
+From PV Require Import Base.U64 E3.E3_Run C01.C01_Model C01.C01_Coop C01.C01_Spin_Model.
 Require Extraction.
 Require Import ExtrOcamlBasic.
-Extraction "c01_model.ml" c01_run.
+Extraction "c01_model.ml" c01_run tas_run tkl_run qsl_run.
